@@ -9,7 +9,8 @@
     `runG`      runs a history and, next to it, the bookkeeping `Ghost`:
                 `log` = records appended and not lost by an earlier crash,
                 `durable` = the prefix of `log` that was synced (or survived a crash)
-    `Op.plain`  the histories covered: every op except a housekeeping round, payloads < 2^32-8 bytes
+    `Op.plain`  the histories covered: all ops (housekeeping rounds with their retention included),
+                payloads < 2^32-8 bytes; `Ghost.retired` counts the records retention removed
   `crc` is an arbitrary function: none of the theorems needs an assumption about the checksum
   (a crash only truncates).
 -/
@@ -50,7 +51,7 @@ theorem recover_prefix (crc : Bytes → UInt32) (cfg : Cfg) (ops : List Op) (k :
   · simp at h
   · exact h
 
-example : ∀ op ∈ [Op.write [1, 2], .sync, .shift, .write [], .crashRecover 3, .write [7], .restart], op.plain := by
+example : ∀ op ∈ [Op.write [1, 2], .sync, .shift, .housekeep, .write [], .crashRecover 3, .write [7], .restart], op.plain := by
   simp [Op.plain]
 
 /-- After recovery the files hold exactly the frames of the returned records (the torn tail is gone),
@@ -97,7 +98,7 @@ theorem recover_then_append (crc : Bytes → UInt32) (cfg : Cfg) (ops : List Op)
   have hinv2 := runG_inv crc (ps.map Op.write ++ [.sync]) _ _ hinv1 hpl
   rw [runG_fst] at hinv2
   have hg : (runG crc s1.1 (stepGhost crc st.1 st.2 (.crashRecover k)) (ps.map Op.write ++ [.sync])).2
-      = { log := s1.2 ++ ps, nsynced := (s1.2 ++ ps).length } := by
+      = { log := s1.2 ++ ps, nsynced := (s1.2 ++ ps).length, retired := st.2.retired } := by
     rw [runG_append, runG_writes]
     simp [runG, stepGhost, s1]
   rw [hg] at hinv2
@@ -110,13 +111,15 @@ theorem recover_then_append (crc : Bytes → UInt32) (cfg : Cfg) (ops : List Op)
 example : ∀ p ∈ [[1, 2, 3], ([] : Bytes)], p.length + 8 < 2 ^ 32 := by simp
 
 /-- **cycles.** A record that was durable at any point of a history is returned by every later
-    recovery, after any number of further append/sync/shift/crash/recover cycles. -/
+    recovery, after any number of further append/sync/shift/housekeeping/crash/recover cycles —
+    except for the `retired` oldest records that housekeeping rounds removed in between together
+    with their whole segment files (retention, see `retire_scope`). -/
 theorem synced_never_lost (crc : Bytes → UInt32) (cfg : Cfg) (ops1 ops2 : List Op) (k : Nat)
     (h1 : ∀ op ∈ ops1, op.plain) (h2 : ∀ op ∈ ops2, op.plain) :
     let st1 := runG crc (Sys.init cfg) {} ops1
     let st2 := runG crc (Sys.init cfg) {} (ops1 ++ ops2)
-    st1.2.durable <+: (stepOp crc st2.1 (.crashRecover k)).2
-    ∧ st1.2.durable <+: st2.2.log := by
+    st1.2.durable.drop (st2.2.retired - st1.2.retired) <+: (stepOp crc st2.1 (.crashRecover k)).2
+    ∧ st1.2.durable.drop (st2.2.retired - st1.2.retired) <+: st2.2.log := by
   intro st1 st2
   have hinv1 := runG_inv crc ops1 _ _ (init_inv crc cfg) h1
   have hmono := runG_durable_mono crc ops2 _ _ hinv1 h2
@@ -129,6 +132,23 @@ theorem synced_never_lost (crc : Bytes → UInt32) (cfg : Cfg) (ops1 ops2 : List
   have hrec := recover_prefix crc cfg (ops1 ++ ops2) k h12
   rw [← hst2] at hmono
   exact ⟨hmono.trans hrec.2.1, hmono.trans (List.take_prefix _ _)⟩
+
+/-- … and when no housekeeping round happens in between, nothing at all is lost. -/
+theorem synced_never_lost_without_retention (crc : Bytes → UInt32) (cfg : Cfg) (ops1 ops2 : List Op) (k : Nat)
+    (h1 : ∀ op ∈ ops1, op.plain) (h2 : ∀ op ∈ ops2, op.plain) (hnohk : ∀ op ∈ ops2, op ≠ .housekeep) :
+    let st1 := runG crc (Sys.init cfg) {} ops1
+    let st2 := runG crc (Sys.init cfg) {} (ops1 ++ ops2)
+    st1.2.durable <+: (stepOp crc st2.1 (.crashRecover k)).2 := by
+  intro st1 st2
+  have h := (synced_never_lost crc cfg ops1 ops2 k h1 h2).1
+  have hst2 : st2 = runG crc st1.1 st1.2 ops2 := runG_append crc ops1 ops2 _ _
+  have hr : st2.2.retired = st1.2.retired := by
+    rw [hst2]; exact runG_retired_eq crc ops2 _ _ hnohk
+  have h' : st1.2.durable.drop (st2.2.retired - st1.2.retired) <+: (stepOp crc st2.1 (.crashRecover k)).2 := h
+  rw [hr, Nat.sub_self, List.drop_zero] at h'
+  exact h'
+
+example : ∀ op ∈ [Op.write [5], .sync, .crashRecover 2], op ≠ Op.housekeep := by simp
 
 /-! ### housekeeping (retention) -/
 
@@ -153,6 +173,13 @@ theorem housekeep_keeps_open_tail (w : Writer) (hcfg : w.cfg.fileLimit ≤ w.cfg
   housekeep_keeps_tail w hcfg hu
 
 example : ({} : Cfg).fileLimit ≤ ({} : Cfg).totalLimit := by decide
+
+/-- … over whole histories: the model never leaves the regime in which it describes the code
+    (the flag `tailUnlinked` marks the one behaviour that is not modelled). -/
+theorem history_keeps_open_tail (crc : Bytes → UInt32) (cfg : Cfg) (ops : List Op)
+    (hcfg : cfg.fileLimit ≤ cfg.totalLimit) :
+    (run crc (Sys.init cfg) ops).tailUnlinked = false :=
+  (run_flags crc cfg hcfg ops _ (openWriter_flags cfg {})).2
 
 /-! ### the defects of the unrepaired code, as concrete witnesses -/
 
